@@ -56,11 +56,10 @@ def _case(draw, tier, force_pre_entry=False):
         "nested": prob(draw, 0.0 if force_pre_entry else 0.2),
         "limit_off": draw(st.integers(0, 3)),
         "entry": 0,
-        "exit_ext": prob(draw, 0.35),
-        "stop_none": draw(st.booleans()),
-        "emit_only": prob(draw, 0.4),  # signal form: the tick comes from a node that produces nothing else  # a route gate that ends the loop by deciding None rather than END
+        "exit_ext": prob(draw, 0.35),  # the exit node takes an external input only (reached through the gate's control edge alone)
+        "stop_none": draw(st.booleans()),  # a route gate that ends the loop by deciding None rather than END
         # the gate is cacheable and the loop runs three times on one runner that carries a cache (decisions are restored from it)
-        "cache_gate": prob(draw, 0.3),  # the exit node takes an external input only (reached through the gate's control edge alone)
+        "cache_gate": prob(draw, 0.3),
     }
     if form in ("selfsignal", "chat") or L["acc"]:
         L["nullable"] = False
